@@ -13626,3 +13626,94 @@ func ruleReleaseAfterDescent(c *Ctx) {
 	}
 	c.Floor("release-after-descent.functions", n, 2)
 }
+
+// ruleResetNoopBothHeights (C02): a reset "to where the chain already is" has nothing to do only when both the blocks
+// and the headers end at the target: headers ahead of the blocks (a wrong fork's headers are the usual reason for a
+// reset to the tip) must be removed, or the node keeps refusing the right block h+1. Every success exit of the
+// pre-check of resetStateInternal - before anything was changed - stands under conditions that mention both the
+// current block height and the header height.
+func ruleResetNoopBothHeights(c *Ctx) {
+	fd := c.P.Func("pkg/core", "Blockchain", "resetStateInternal")
+	if fd == nil {
+		c.Lost("reset-noop-both-heights.anchor", "Blockchain.resetStateInternal not found")
+		return
+	}
+	info := fd.Pkg.TypesInfo
+	var blockH, headerH types.Object
+	ast.Inspect(fd.Decl.Body, func(x ast.Node) bool {
+		as, ok := x.(*ast.AssignStmt)
+		if !ok || len(as.Rhs) != 1 || len(as.Lhs) == 0 {
+			return true
+		}
+		call, ok := ast.Unparen(as.Rhs[0]).(*ast.CallExpr)
+		if !ok {
+			return true
+		}
+		se, ok := ast.Unparen(call.Fun).(*ast.SelectorExpr)
+		if !ok {
+			return true
+		}
+		id, ok := as.Lhs[0].(*ast.Ident)
+		if !ok {
+			return true
+		}
+		switch se.Sel.Name {
+		case "GetCurrentBlockHeight":
+			blockH = info.ObjectOf(id)
+		case "HeaderHeight":
+			headerH = info.ObjectOf(id)
+		}
+		return true
+	})
+	if blockH == nil || headerH == nil {
+		c.Lost("reset-noop-both-heights.shape", "resetStateInternal no longer reads the block height and the header height into locals")
+		return
+	}
+	// the first statement that changes the database: everything before it is the pre-check
+	var firstWrite token.Pos
+	ast.Inspect(fd.Decl.Body, func(x ast.Node) bool {
+		if call, ok := x.(*ast.CallExpr); ok && firstWrite == token.NoPos {
+			if se, ok := ast.Unparen(call.Fun).(*ast.SelectorExpr); ok && (strings.HasPrefix(se.Sel.Name, "Put") || strings.HasPrefix(se.Sel.Name, "Delete") || se.Sel.Name == "Persist" || se.Sel.Name == "PersistSync") {
+				firstWrite = call.Pos()
+			}
+		}
+		return true
+	})
+	n := 0
+	var stack []ast.Node
+	ast.Inspect(fd.Decl.Body, func(x ast.Node) bool {
+		if x == nil {
+			stack = stack[:len(stack)-1]
+			return true
+		}
+		stack = append(stack, x)
+		rs, ok := x.(*ast.ReturnStmt)
+		if !ok || len(rs.Results) != 1 || !isNilIdent(info, rs.Results[0]) || (firstWrite != token.NoPos && rs.Pos() > firstWrite) {
+			return true
+		}
+		n++
+		sawB, sawH := false, false
+		for i := len(stack) - 2; i >= 0; i-- {
+			if is, ok := stack[i].(*ast.IfStmt); ok && stack[i+1] == ast.Node(is.Body) {
+				ast.Inspect(is.Cond, func(y ast.Node) bool {
+					if id, ok := y.(*ast.Ident); ok {
+						switch info.ObjectOf(id) {
+						case blockH:
+							sawB = true
+						case headerH:
+							sawH = true
+						}
+					}
+					return true
+				})
+			}
+		}
+		if sawB && sawH {
+			c.OK("reset-noop-both-heights", c.P.Pos(rs.Pos()), "the nothing-to-do exit of the reset asks about blocks and headers")
+		} else {
+			c.Fail("reset-noop-both-heights", c.P.Pos(rs.Pos()), fmt.Sprintf("resetStateInternal reports success before changing anything under conditions that mention the block height: %v, the header height: %v: with headers ahead of the blocks a reset to the current block height does nothing, the stale headers stay and the node refuses every block h+1 but the one they name - a node that only synchronised to h accepts it", sawB, sawH))
+		}
+		return true
+	})
+	c.Floor("reset-noop-both-heights.exits", n, 1)
+}
